@@ -47,6 +47,7 @@ type frScenario struct {
 	TimeAdvPct int        `json:"time_adv_pct"`
 	CryptoSeed uint64     `json:"crypto_seed"`
 	ContentKey uint64     `json:"content_key"`
+	YieldUnlock bool      `json:"yield_unlock,omitempty"` // unlocks are scheduling points as well
 	// ping mode: readers use a read timeout, so that a silent peer is pinged (the reader goroutine writes the ping,
 	// the peer's reader goroutine writes the pong, both concurrently with the writer goroutines of their ends)
 	PingMode      bool   `json:"ping_mode,omitempty"`
@@ -125,6 +126,7 @@ func frGen(r *rand.Rand, params map[string]any) frScenario {
 	sc.TimeAdvPct = []int{0, 0, 5, 20}[r.IntN(4)]
 	sc.CryptoSeed = r.Uint64()
 	sc.ContentKey = r.Uint64()
+	sc.YieldUnlock = r.IntN(2) == 0
 	switch params["faults"] {
 	case "none":
 		if params["enumerate"] != true && r.IntN(4) == 0 {
@@ -293,7 +295,7 @@ func frWrite(pc *PacketConn, p frPacket, body []byte) error {
 func frRun(t *testing.T, sc frScenario, tape *vrt.Tape, keepLog bool, fault string, faultDir int, faultOff int64, mask byte) frOutcome {
 	var out frOutcome
 	cryptotest.SetGlobalRandom(t, sc.CryptoSeed)
-	cfg := vrt.Config{Strategy: sc.Strategy, TimeAdvPct: sc.TimeAdvPct, PCTChanges: 2, PCTSpan: 400, MaxSteps: 400000, Horizon: time.Hour, KeepLog: keepLog}
+	cfg := vrt.Config{Strategy: sc.Strategy, TimeAdvPct: sc.TimeAdvPct, PCTChanges: 2, PCTSpan: 400, MaxSteps: 400000, Horizon: time.Hour, KeepLog: keepLog, YieldAfterUnlock: sc.YieldUnlock}
 	hsOver := false
 	cfg.OnIdle = func(s *vrt.Sim) bool {
 		if fault == "" && hsOver {
